@@ -428,6 +428,10 @@ func (r *vRun) runTeardown() {
 			r.link.ends[side].fail()
 		case "writefail":
 			r.link.ends[side].failWrite.Store(true)
+			if a == nil {
+				// still inside the constructor and possibly never writing: a write failure alone would go unnoticed
+				r.link.ends[side].fail()
+			}
 			// a write failure is only noticed on the next write; make sure there is one
 			if a != nil {
 				a.lock.Lock()
